@@ -294,6 +294,30 @@ func c13Run(c *Ctx) {
 		}
 		c13Judge(c, cs)
 	}
+	// 2a'. numbered property names (same stem, different digit counts, either script) next to sub-step names that
+	// sort between them as text: one listing order, whatever order the properties were written or stored in
+	for si, set := range [][]string{{"q9", "q10", "q2b"}, {"x1", "x10", "x2", "x1z"}, {"\u09a7\u09be\u09aa\u09ef", "\u09a7\u09be\u09aa\u09e7\u09e6", "\u09a7\u09be\u09aa\u09e8\u0995"}, {"q9", "q10", "q2b", "q1", "q11", "q1z", "q02", "q2", "q"},
+		{"r1", "r01", "r001", "r1a", "r10", "R2"}, {"item2", "item10", "item1b", "Item3", "item"}, {"k\u09e8", "k\u09e7\u09e6", "k2", "k10", "k1\u0995"}} {
+		for rot := 0; rot < len(set); rot++ {
+			var plain, stores []string
+			for i := range set {
+				kk := set[(i+rot)%len(set)]
+				plain = append(plain, fmt.Sprintf("%s: %d", kk, i+1))
+				stores = append(stores, fmt.Sprintf("s.%s = %d;", kk, i+1))
+			}
+			plit := "{" + strings.Join(plain, ", ") + "}"
+			src := Lines(Var("o", plit), Print(BI("keys", "o")), Print(BI("values", "o")), Print("o"), Print(BI("keys", "o")), Var("s", "{}"), strings.Join(stores, " "), Print(BI("keys", "s")), Print(BI("values", "s")), Print("s"),
+				"o.zz9 = 0;", BI("delete", "o", `"`+set[0]+`"`)+";", Print(BI("keys", "o")), Print(BI("values", "o")), Print("[o, s]"))
+			if !c.Mine() {
+				continue
+			}
+			cs := &Case{Gen: "map-order-sensitive", Src: src, X: map[string]string{"nontrivial": "1", "numbered": fmt.Sprint(si)}}
+			if rot%2 == 1 {
+				cs.Mode = "cli"
+			}
+			c13Judge(c, cs)
+		}
+	}
 	// 2b. literals in which one or two names are written twice, every initialiser a tagged probe
 	r = c.Rand("dupkeys")
 	n = c.N(120, 3000)
